@@ -422,10 +422,16 @@ impl<S: Sub> DynSub for S {
                         let strat = self.strategy(tier);
                         let failed = RefCell::new(false);
                         let stc = RefCell::new(&mut st);
+                        let trace = std::env::var("LMCHECK_TRACE").ok().map(|d| PathBuf::from(d).join(format!("{}-{}-{}.json", prop, Sub::name(self), shard)));
                         let res = runner.run(&strat, |case| {
                             if stop.load(Ordering::Relaxed) && !*failed.borrow() {
                                 // another shard already failed: finish quickly
                                 return Ok(());
+                            }
+                            if let Some(t) = &trace {
+                                // the process may die inside the check (sanitizer abort): leave the case behind
+                                let rf = ReplayFile { property: prop.to_string(), sub: Sub::name(self).to_string(), signature: String::new(), message: String::new(), case: serde_json::to_value(&case).unwrap_or(Value::Null) };
+                                let _ = std::fs::write(t, serde_json::to_string(&rf).unwrap_or_default());
                             }
                             let v = guarded(|| self.check(&case, cx));
                             match &v {
